@@ -170,6 +170,24 @@ class SymDataset:
     def __iter__(self):
         return iter(list(self.data_vars.keys()))
 
+    @property
+    def dims(self):
+        """Dataset.dims: a mapping name -> size. Its ITERATION ORDER depends on how the Dataset was assembled (which
+        variable or coordinate introduced a dimension first), not on any variable's axis order: the model leaves it
+        unspecified - for two dimensions both orders are explored (one path each)."""
+        _use("Dataset.dims (iteration order unspecified)")
+        names = list(self.sizes.keys())
+        order = self.__dict__.get("_dims_order")
+        if order is None:
+            if len(names) == 2:
+                c = ctx()
+                flip = c.fresh("xr_dataset_dims_flipped", "bool")
+                order = names[::-1] if flip else names
+            else:
+                order = names
+            self.__dict__["_dims_order"] = order
+        return OrderedDict((k, self.sizes[k]) for k in order)
+
     def __getattr__(self, name):
         raise AttributeError("Dataset.%s is not modelled" % name)
 
